@@ -3,8 +3,11 @@ package main
 // Engine "rapidp": C18 - rapidproto generators always yield valid, well-formed messages.
 
 import (
+	"flag"
 	"fmt"
 	cosmos_proto "github.com/cosmos/cosmos-proto"
+	"io"
+	"os"
 	"regexp"
 	"strconv"
 	"strings"
@@ -19,6 +22,7 @@ import (
 	"google.golang.org/protobuf/types/descriptorpb"
 	"google.golang.org/protobuf/types/dynamicpb"
 	"google.golang.org/protobuf/types/known/durationpb"
+	"google.golang.org/protobuf/types/known/fieldmaskpb"
 	"google.golang.org/protobuf/types/known/timestamppb"
 	"pgregory.net/rapid"
 )
@@ -137,7 +141,7 @@ func (w *rpWalk) msg(m protoreflect.Message, depth int, path string) {
 			}
 			w.stats["lists"]++
 			for j := 0; j < l.Len(); j++ {
-				if fd.Kind() == protoreflect.MessageKind {
+				if isMsgKind(fd.Kind()) {
 					w.msg(l.Get(j).Message(), depth+1, p)
 				} else {
 					w.scalar(fd, l.Get(j), p)
@@ -146,13 +150,17 @@ func (w *rpWalk) msg(m protoreflect.Message, depth int, path string) {
 		case fd.IsMap():
 			m.Get(fd).Map().Range(func(k protoreflect.MapKey, v protoreflect.Value) bool {
 				w.scalar(fd.MapKey(), k.Value(), p+"(key)")
-				if fd.MapValue().Kind() == protoreflect.MessageKind {
+				if isMsgKind(fd.MapValue().Kind()) {
 					w.msg(v.Message(), depth+1, p)
 				} else {
 					w.scalar(fd.MapValue(), v, p)
 				}
 				return true
 			})
+		case fd.Kind() == protoreflect.GroupKind:
+			if has {
+				w.msg(m.Get(fd).Message(), depth+1, p)
+			}
 		case fd.Kind() == protoreflect.MessageKind:
 			if has {
 				w.msg(m.Get(fd).Message(), depth+1, p)
@@ -323,6 +331,8 @@ func engineRapidp(rep *Report) {
 	}
 	if si, _ := shard(); si == 0 && only < 0 {
 		rapidpOptionalMessage(rep)
+		rapidpGroups(rep)
+		rapidpDrawLog(rep)
 	}
 	setProgress(-1, -1, 0)
 }
@@ -361,6 +371,249 @@ func rapidpOptionalMessage(rep *Report) {
 		w.msg(m.ProtoReflect(), 0, "vf.dynopt.Holder")
 	}
 	rep.Count("C18", "draws/proto3-optional-message-dynamic-type", 200)
+}
+
+func isMsgKind(k protoreflect.Kind) bool {
+	return k == protoreflect.MessageKind || k == protoreflect.GroupKind
+}
+
+// rapidpDynamicDraws draws n messages of a dynamic type under every option set and applies the walker and the
+// reference round trip.
+func rapidpDynamicDraws(rep *Report, md MD, n int, counter string) {
+	tn := string(md.FullName())
+	for oi := 0; oi < 4; oi++ {
+		o := rpOpts{noEmpty: oi&1 != 0, noNil: oi&2 != 0}
+		gen := rapidproto.MessageGenerator[proto.Message](dynamicpb.NewMessage(md), rapidproto.GeneratorOptions{NoEmptyLists: o.noEmpty, DisallowNilMessages: o.noNil})
+		for i := 0; i < n; i++ {
+			seed := int(caseSeed(*flagSeed, tn, i, fmt.Sprintf("rapidp-dyn%d", oi)) & 0x7fffffff)
+			rc := map[string]interface{}{"engine": "rapidp", "type": tn, "seed": *flagSeed, "options": fmt.Sprintf("%+v", o), "rapid_seed": seed, "dynamic": true}
+			var m proto.Message
+			pan, pmsg := safely(func() { m = gen.Example(seed) })
+			rep.Eval("C18", []byte(fmt.Sprintf("%s|%d|%d", tn, oi, seed)), true)
+			if pan {
+				rep.Violate("C18", "rapidp/draw-fails", tn, fmt.Sprintf("options %+v seed %d: %s", o, seed, pmsg), rc)
+				return
+			}
+			w := &rpWalk{rep: rep, tn: tn, rc: rc, o: o, types: protoregistry.GlobalTypes, urls: map[string]bool{}, stats: map[string]int{}}
+			pan, pmsg = safely(func() { w.msg(m.ProtoReflect(), 0, tn) })
+			if pan {
+				rep.Violate("C18", "rapidp/walk-panics", tn, pmsg, rc)
+				continue
+			}
+			for k, c := range w.stats {
+				rep.Count("C18", "seen/"+k, int64(c))
+			}
+			b, err := detOpts.Marshal(m)
+			back := dynamicpb.NewMessage(md)
+			if err == nil {
+				err = proto.Unmarshal(b, back)
+			}
+			if err != nil || !proto.Equal(back, m) {
+				rep.Violate("C18", "rapidp/roundtrip", tn, fmt.Sprintf("drawn message is rejected by the reference marshaller or does not round-trip: %v", err), rc)
+			}
+			rep.Count("C18", counter, 1)
+		}
+	}
+}
+
+// rapidpGroups: a proto2 dynamic type with an optional and a repeated group ("every message type").
+func rapidpGroups(rep *Report) {
+	lbl := func(rep bool) *descriptorpb.FieldDescriptorProto_Label {
+		if rep {
+			return descriptorpb.FieldDescriptorProto_LABEL_REPEATED.Enum()
+		}
+		return descriptorpb.FieldDescriptorProto_LABEL_OPTIONAL.Enum()
+	}
+	f := func(name string, num int32, t descriptorpb.FieldDescriptorProto_Type, typ string, repeated bool) *descriptorpb.FieldDescriptorProto {
+		fd := &descriptorpb.FieldDescriptorProto{Name: proto.String(name), Number: proto.Int32(num), Label: lbl(repeated), Type: t.Enum()}
+		if typ != "" {
+			fd.TypeName = proto.String(typ)
+		}
+		return fd
+	}
+	const (
+		tGroup = descriptorpb.FieldDescriptorProto_TYPE_GROUP
+		tMsg   = descriptorpb.FieldDescriptorProto_TYPE_MESSAGE
+		tStr   = descriptorpb.FieldDescriptorProto_TYPE_STRING
+		tI32   = descriptorpb.FieldDescriptorProto_TYPE_INT32
+		tI64   = descriptorpb.FieldDescriptorProto_TYPE_SINT64
+	)
+	fdp := &descriptorpb.FileDescriptorProto{Name: proto.String("vfdyn/groups.proto"), Package: proto.String("vf.dyngrp"), Syntax: proto.String("proto2"),
+		MessageType: []*descriptorpb.DescriptorProto{
+			{Name: proto.String("Leaf"), Field: []*descriptorpb.FieldDescriptorProto{f("v", 1, tStr, "", false), f("r", 2, tI32, "", true)}},
+			{Name: proto.String("Holder"),
+				Field: []*descriptorpb.FieldDescriptorProto{
+					f("og", 1, tGroup, ".vf.dyngrp.Holder.Og", false),
+					f("rg", 2, tGroup, ".vf.dyngrp.Holder.Rg", true),
+					f("leaf", 3, tMsg, ".vf.dyngrp.Leaf", false),
+					f("n", 4, tI64, "", false)},
+				NestedType: []*descriptorpb.DescriptorProto{
+					{Name: proto.String("Og"), Field: []*descriptorpb.FieldDescriptorProto{f("s", 1, tStr, "", false), f("nums", 2, tI32, "", true)}},
+					{Name: proto.String("Rg"), Field: []*descriptorpb.FieldDescriptorProto{f("v", 1, tI64, "", false), f("leaf", 2, tMsg, ".vf.dyngrp.Leaf", false), f("names", 3, tStr, "", true)}},
+				}},
+		}}
+	fd, err := protodesc.NewFile(fdp, nil)
+	if err != nil {
+		rep.Inconclusive("C18", "dynamic-group-descriptor-rejected")
+		rep.Notes = append(rep.Notes, "group descriptor: "+err.Error())
+		return
+	}
+	rapidpDynamicDraws(rep, fd.Messages().ByName("Holder"), 60, "draws/proto2-groups-dynamic-type")
+}
+
+var drawPathsRE = regexp.MustCompile(`\[rapid\] draw paths: \[\]string\{(.*)\}\s*$`)
+var quotedRE = regexp.MustCompile(`"([^"]*)"`)
+
+// captureStdout runs f with os.Stdout redirected into a pipe and returns what was written.
+func captureStdout(f func()) string {
+	old := os.Stdout
+	r, w, err := os.Pipe()
+	if err != nil {
+		f()
+		return ""
+	}
+	os.Stdout = w
+	done := make(chan string, 1)
+	go func() { b, _ := io.ReadAll(r); done <- string(b) }()
+	func() {
+		defer func() { os.Stdout = old; w.Close() }()
+		f()
+	}()
+	out := <-done
+	r.Close()
+	return out
+}
+
+// rapidpDrawLog: "FieldMask fields carry the paths that were drawn for them".  What was drawn is observed through
+// rapid's own eager draw log (-rapid.log: every Draw call prints its label and value), not re-derived: the paths of
+// the FieldMask values in generation order (fields in declaration order, list elements in order) must be the paths
+// of the last draws labelled "paths", element for element.
+func rapidpDrawLog(rep *Report) {
+	if flag.Lookup("rapid.log") == nil {
+		rep.Inconclusive("C18", "rapid-draw-log-unavailable")
+		return
+	}
+	fm := func(name string, num int32, repeated bool) *descriptorpb.FieldDescriptorProto {
+		l := descriptorpb.FieldDescriptorProto_LABEL_OPTIONAL.Enum()
+		if repeated {
+			l = descriptorpb.FieldDescriptorProto_LABEL_REPEATED.Enum()
+		}
+		return &descriptorpb.FieldDescriptorProto{Name: proto.String(name), Number: proto.Int32(num), Label: l, Type: descriptorpb.FieldDescriptorProto_TYPE_MESSAGE.Enum(), TypeName: proto.String(".google.protobuf.FieldMask")}
+	}
+	fdp := &descriptorpb.FileDescriptorProto{Name: proto.String("vfdyn/masks.proto"), Package: proto.String("vf.dynmask"), Syntax: proto.String("proto3"),
+		Dependency: []string{"google/protobuf/field_mask.proto"},
+		MessageType: []*descriptorpb.DescriptorProto{
+			{Name: proto.String("Masks"), Field: []*descriptorpb.FieldDescriptorProto{fm("one", 1, false),
+				{Name: proto.String("s"), Number: proto.Int32(2), Label: descriptorpb.FieldDescriptorProto_LABEL_OPTIONAL.Enum(), Type: descriptorpb.FieldDescriptorProto_TYPE_STRING.Enum()},
+				fm("many", 3, true), fm("last", 4, false)}},
+		}}
+	fd, err := protodesc.NewFile(fdp, protoregistry.GlobalFiles)
+	if err != nil {
+		rep.Inconclusive("C18", "dynamic-mask-descriptor-rejected")
+		rep.Notes = append(rep.Notes, "mask descriptor: "+err.Error())
+		return
+	}
+	masksMD := fd.Messages().ByName("Masks")
+	paths := func(m protoreflect.Message) []string {
+		l := m.Get(m.Descriptor().Fields().ByName("paths")).List()
+		out := []string{}
+		for i := 0; i < l.Len(); i++ {
+			out = append(out, l.Get(i).String())
+		}
+		return out
+	}
+	carried := func(m protoreflect.Message) [][]string {
+		if m.Descriptor().FullName() == "google.protobuf.FieldMask" {
+			return [][]string{paths(m)}
+		}
+		var out [][]string
+		fs := m.Descriptor().Fields()
+		for i := 0; i < fs.Len(); i++ {
+			f := fs.Get(i)
+			switch {
+			case f.IsList():
+				l := m.Get(f).List()
+				for j := 0; j < l.Len(); j++ {
+					out = append(out, paths(l.Get(j).Message()))
+				}
+			case f.Kind() == protoreflect.MessageKind && m.Has(f):
+				out = append(out, paths(m.Get(f).Message()))
+			}
+		}
+		return out
+	}
+	type sub struct {
+		name string
+		zero func() proto.Message
+		n    int
+	}
+	subs := []sub{
+		{"google.protobuf.FieldMask", func() proto.Message { return &fieldmaskpb.FieldMask{} }, perType(1500, 12000)},
+		{"google.protobuf.FieldMask(dynamic)", func() proto.Message {
+			return dynamicpb.NewMessage((&fieldmaskpb.FieldMask{}).ProtoReflect().Descriptor())
+		}, perType(300, 3000)},
+		{"vf.dynmask.Masks", func() proto.Message { return dynamicpb.NewMessage(masksMD) }, perType(400, 4000)},
+	}
+	if err := flag.Set("rapid.log", "true"); err != nil {
+		rep.Inconclusive("C18", "rapid-draw-log-unavailable")
+		return
+	}
+	defer flag.Set("rapid.log", "false")
+	for _, s := range subs {
+		for oi := 0; oi < 2; oi++ {
+			gopts := rapidproto.GeneratorOptions{NoEmptyLists: oi == 1, DisallowNilMessages: oi == 1}
+			gen := rapidproto.MessageGenerator[proto.Message](s.zero(), gopts)
+			for i := 0; i < s.n; i++ {
+				seed := int(caseSeed(*flagSeed, s.name, i, fmt.Sprintf("rapidp-drawlog%d", oi)) & 0x7fffffff)
+				rc := map[string]interface{}{"engine": "rapidp", "type": s.name, "seed": *flagSeed, "rapid_seed": seed, "options": fmt.Sprintf("%+v", gopts)}
+				var m proto.Message
+				var pan bool
+				var pmsg string
+				logText := captureStdout(func() { pan, pmsg = safely(func() { m = gen.Example(seed) }) })
+				rep.Eval("C18", []byte(fmt.Sprintf("drawlog|%s|%d|%d", s.name, oi, seed)), true)
+				if pan {
+					rep.Violate("C18", "rapidp/draw-fails", s.name, pmsg, rc)
+					break
+				}
+				var drawn [][]string
+				for _, line := range strings.Split(logText, "\n") {
+					if mm := drawPathsRE.FindStringSubmatch(line); mm != nil {
+						ps := []string{}
+						for _, q := range quotedRE.FindAllStringSubmatch(mm[1], -1) {
+							ps = append(ps, q[1])
+						}
+						drawn = append(drawn, ps)
+					}
+				}
+				got := carried(m.ProtoReflect())
+				rep.Count("C18", "drawlog/fieldmask-draws-observed", int64(len(drawn)))
+				rep.Count("C18", "drawlog/fieldmasks-compared", int64(len(got)))
+				if len(drawn) < len(got) {
+					if len(drawn) == 0 {
+						rep.Inconclusive("C18", "rapid-draw-log-empty")
+						return
+					}
+					rep.Violate("C18", "rapidp/fieldmask-paths-not-the-drawn-ones", s.name, fmt.Sprintf("%d FieldMask values but only %d draws labelled paths", len(got), len(drawn)), rc)
+					continue
+				}
+				drawn = drawn[len(drawn)-len(got):] // earlier entries belong to rejected attempts of the same Example call
+				for k := range got {
+					if strings.Join(got[k], "\x00") != strings.Join(drawn[k], "\x00") {
+						rep.Violate("C18", "rapidp/fieldmask-paths-not-the-drawn-ones", s.name, fmt.Sprintf("FieldMask #%d carries %q, drawn for it: %q", k, got[k], drawn[k]), rc)
+						break
+					}
+					dup := map[string]bool{}
+					for _, p := range drawn[k] {
+						if dup[p] {
+							rep.Count("C18", "drawlog/draws-with-a-repeated-path", 1)
+							break
+						}
+						dup[p] = true
+					}
+				}
+			}
+		}
+	}
 }
 
 // reachesCycle reports whether the message graph reachable from d contains a cycle.
